@@ -447,19 +447,25 @@ package corerad
 //@   opt frame [C12]
 
 // verifyRAs is the concatenation of the seven checks, each run exactly once on
-// (ours, theirs) in that order: stage counts the checks, n sums their reports.
+// (ours, theirs), in any order: done<k> records check k, n sums their reports.
 //@ func verifyRAs
-//@   ghost local stage Int
 //@   ghost local n Int
+//@   ghost local done0 Bool
+//@   ghost local done1 Bool
+//@   ghost local done2 Bool
+//@   ghost local done3 Bool
+//@   ghost local done4 Bool
+//@   ghost local done5 Bool
+//@   ghost local done6 Bool
 //@   requires P1: a != nil && b != nil && optsOK(a.Options) && optsOK(b.Options)
-//@   at call checkRAs(x, y) (r): assert A0 [C12]: ghost.stage == 0 && x == a && y == b ; ghost.stage = 1 ; ghost.n = len(r)
-//@   at call checkMTUs(w, g) (r): assert A1 [C12]: ghost.stage == 1 && w == a.Options && g == b.Options ; ghost.stage = 2 ; ghost.n = ghost.n + len(r)
-//@   at call checkPrefixes(w, g) (r): assert A2 [C12]: ghost.stage == 2 && w == a.Options && g == b.Options ; ghost.stage = 3 ; ghost.n = ghost.n + len(r)
-//@   at call checkRoutes(w, g) (r): assert A3 [C12]: ghost.stage == 3 && w == a.Options && g == b.Options ; ghost.stage = 4 ; ghost.n = ghost.n + len(r)
-//@   at call checkRDNSS(w, g) (r): assert A4 [C12]: ghost.stage == 4 && w == a.Options && g == b.Options ; ghost.stage = 5 ; ghost.n = ghost.n + len(r)
-//@   at call checkDNSSL(w, g) (r): assert A5 [C12]: ghost.stage == 5 && w == a.Options && g == b.Options ; ghost.stage = 6 ; ghost.n = ghost.n + len(r)
-//@   at call checkCaptivePortal(w, g) (r): assert A6 [C12]: ghost.stage == 6 && w == a.Options && g == b.Options ; ghost.stage = 7 ; ghost.n = ghost.n + len(r)
-//@   ensures E1 [C12]: ghost.stage == 7 && len(result) == ghost.n
+//@   at call checkRAs(x, y) (r): assert A0 [C12]: !ghost.done0 && x == a && y == b ; ghost.done0 = true ; ghost.n = ghost.n + len(r)
+//@   at call checkMTUs(w, g) (r): assert A1 [C12]: !ghost.done1 && w == a.Options && g == b.Options ; ghost.done1 = true ; ghost.n = ghost.n + len(r)
+//@   at call checkPrefixes(w, g) (r): assert A2 [C12]: !ghost.done2 && w == a.Options && g == b.Options ; ghost.done2 = true ; ghost.n = ghost.n + len(r)
+//@   at call checkRoutes(w, g) (r): assert A3 [C12]: !ghost.done3 && w == a.Options && g == b.Options ; ghost.done3 = true ; ghost.n = ghost.n + len(r)
+//@   at call checkRDNSS(w, g) (r): assert A4 [C12]: !ghost.done4 && w == a.Options && g == b.Options ; ghost.done4 = true ; ghost.n = ghost.n + len(r)
+//@   at call checkDNSSL(w, g) (r): assert A5 [C12]: !ghost.done5 && w == a.Options && g == b.Options ; ghost.done5 = true ; ghost.n = ghost.n + len(r)
+//@   at call checkCaptivePortal(w, g) (r): assert A6 [C12]: !ghost.done6 && w == a.Options && g == b.Options ; ghost.done6 = true ; ghost.n = ghost.n + len(r)
+//@   ensures E1 [C12]: ghost.done0 && ghost.done1 && ghost.done2 && ghost.done3 && ghost.done4 && ghost.done5 && ghost.done6 && len(result) == ghost.n
 //@   assigns new heap(corerad.problems), new mem(corerad.problem), new mem(*ndp.DNSSearchList), new mem(*ndp.PrefixInformation), new mem(*ndp.RecursiveDNSServer), new mem(*ndp.RouteInformation)
 //@   opt safety [C12]
 //@   opt frame [C12]
